@@ -13,8 +13,9 @@ loader.install(sc, with_ply=h.needs_ply)
 runner._worker_init(sc, h.needs_ply)
 kfs = [k for k in runner.load_known_findings() if k.get('property') == h.prop]
 r = runner.run_case((h.name, p, tier, kfs, 0))
-for k in ('violations', 'known', 'undecided', 'samples'):
+for k in ('violations', 'known', 'undecided', 'samples', 'undecided_replays'):
+    r.setdefault(k, [])
     print(k, len(r[k]))
     for x in r[k][:int(os.environ.get('N', 6))]:
         print('   ', json.dumps(x, default=str)[:700])
-print({k: v for k, v in r.items() if k not in ('violations', 'known', 'undecided', 'samples')})
+print({k: v for k, v in r.items() if k not in ('violations', 'known', 'undecided', 'samples', 'undecided_replays')})
